@@ -73,7 +73,9 @@ def gen(S, tier):
     c = S("config")
     w = S("workload")
     kind = c.weighted([("choice", 6), ("question", 2), ("confirm", 2)])
-    sc = {"kind": kind, "interactive": not c.chance(0.08), "attempts": c.pick([None, None, 1, 2, 3]),
+    sc = {"kind": kind, "interactive": not c.chance(0.1), "attempts": c.pick([None, None, 1, 2, 3]),
+          # how interaction is switched off: on the IO, on its input, or on the IO a section IO was made from
+          "off_via": c.pick(["io", "io", "input", "section_before", "section_after"]),
           "torn": False, "script": []}
     if kind == "choice":
         n = c.randint(1, 5)
@@ -283,7 +285,20 @@ def _dialogue(sc, q, res, log, tag):
     fm = AnsiFormatter(StyleSet([Style("error").fg("magenta").underlined(), Style("question").fg("blue"),
                                  Style("comment").fg("cyan"), Style("info").fg("green"), Style("hl").fg("black").bg("white")]))
     io = IO(Input(inp), Output(out, fm), Output(err, fm))
-    io.set_interactive(sc["interactive"])
+    if not sc["interactive"]:
+        via = sc.get("off_via", "io")
+        if via == "input":
+            io.input.set_interactive(False)
+        elif via == "section_before":
+            sec = io.section()          # made first, switched off through the parent afterwards
+            io.set_interactive(False)
+            io = sec
+        elif via == "section_after":
+            io.set_interactive(False)
+            io = io.section()
+        else:
+            io.set_interactive(False)
+        res.probe("off_via_" + via)
 
     outcome = None
     try:
